@@ -92,6 +92,9 @@ fn issue_case<S: ShortGroupSignatureScheme>(v: &Value) -> Value {
             }
         }
     }
+    if v["blind"] == true {
+        return json!({"r":"harness-error","msg":"blind cases go through blind_issue_case"});
+    }
     let before = (issuer.revocation_registry.elements.clone(), issuer.revocation_registry.active.clone(), issuer.revocation_registry.value);
     let r = catch_unwind(AssertUnwindSafe(|| issuer.sign_credential(&claims)));
     let after = (issuer.revocation_registry.elements.clone(), issuer.revocation_registry.active.clone(), issuer.revocation_registry.value);
@@ -112,6 +115,95 @@ fn issue_case<S: ShortGroupSignatureScheme>(v: &Value) -> Value {
     }
 }
 
+/// The same vectors through blind issuance: the schema gets one more claim (Hashed, no validators, declared
+/// blindable) that an honest holder hides; the vector is what the issuer supplies itself.
+fn blind_issue_case<S: ShortGroupSignatureScheme>(v: &Value) -> Value {
+    use credx::blind::BlindCredentialRequest;
+    use std::collections::BTreeMap;
+    let spec = v["schema"].as_array().unwrap();
+    let n = spec.len();
+    let mut schema_claims: Vec<ClaimSchema> = spec
+        .iter()
+        .enumerate()
+        .map(|(i, s)| ClaimSchema {
+            claim_type: ctype(s["t"].as_str().unwrap()),
+            label: format!("l{i}"),
+            print_friendly: true,
+            validators: s["validators"].as_array().unwrap().iter().map(validator).collect(),
+        })
+        .collect();
+    let hidden_label = format!("l{n}");
+    schema_claims.push(ClaimSchema { claim_type: ClaimType::Hashed, label: hidden_label.clone(), print_friendly: true, validators: vec![] });
+    let cs = match CredentialSchema::new(Some("s"), None, &[hidden_label.as_str()], &schema_claims) {
+        Ok(c) => c,
+        Err(_) => return json!({"r":"ok","schema":"err"}),
+    };
+    let (ipub, mut issuer) = Issuer::<S>::new(&cs);
+    let claims: Vec<ClaimData> = v["claims"].as_array().unwrap().iter().map(claim_from).collect();
+    let mut rx_table = vec![];
+    let mut rid = 0usize;
+    for (i, s) in spec.iter().enumerate() {
+        for val in s["validators"].as_array().unwrap() {
+            if val["k"] == "regex" {
+                let re = regex::Regex::new(val["rx"].as_str().unwrap()).unwrap();
+                let m = match claims.get(i) {
+                    Some(ClaimData::Hashed(h)) => std::str::from_utf8(&h.value).map(|s| re.is_match(s)).unwrap_or(false),
+                    Some(ClaimData::Revocation(r)) => re.is_match(&r.value),
+                    _ => false,
+                };
+                rx_table.push(json!([rid, m]));
+                rid += 1;
+            }
+        }
+    }
+    // registry state before the call, for every identifier in the vector: 0 fresh, 1 issued, 2 issued and revoked
+    let state = v["state"].as_u64().unwrap_or(0);
+    let ids: Vec<String> = claims.iter().filter_map(|c| if let ClaimData::Revocation(r) = c { Some(r.value.clone()) } else { None }).collect::<std::collections::BTreeSet<_>>().into_iter().collect();
+    if state >= 1 {
+        for id in &ids {
+            issuer.revocation_registry.elements.insert(id.clone());
+            issuer.revocation_registry.active.insert(id.clone());
+        }
+        if state >= 2 {
+            let rc: Vec<RevocationClaim> = ids.iter().map(|id| RevocationClaim::from(id.as_str())).collect();
+            let _ = issuer.revoke_credentials(&rc);
+        }
+    }
+    let hidden: ClaimData = HashedClaim { value: b"the holder's secret".to_vec(), print_friendly: true }.into();
+    let blind_claims: BTreeMap<String, ClaimData> = [(hidden_label.clone(), hidden.clone())].into_iter().collect();
+    let known: BTreeMap<String, ClaimData> = claims.iter().enumerate().map(|(i, c)| (format!("l{i}"), c.clone())).collect();
+    let (req, blinder) = match catch_unwind(AssertUnwindSafe(|| BlindCredentialRequest::<S>::new(&ipub, &blind_claims))) {
+        Ok(Ok(x)) => x,
+        _ => return json!({"r":"harness-error","msg":"honest blind request failed"}),
+    };
+    let before = (issuer.revocation_registry.elements.clone(), issuer.revocation_registry.active.clone(), issuer.revocation_registry.value);
+    let r = catch_unwind(AssertUnwindSafe(|| issuer.blind_sign_credential(&req, &known)));
+    let after = (issuer.revocation_registry.elements.clone(), issuer.revocation_registry.active.clone(), issuer.revocation_registry.value);
+    match r {
+        Err(_) => json!({"r":"ok","impl":"panic","rx":rx_table}),
+        Ok(Err(_)) => json!({"r":"ok","impl":"err","rx":rx_table,"unchanged": before == after}),
+        Ok(Ok(b)) => {
+            // the last revocation claim in label order is the credential's identifier
+            let id = known.values().filter_map(|c| if let ClaimData::Revocation(r) = c { Some(r.value.clone()) } else { None }).last().unwrap_or_default();
+            let recorded = issuer.revocation_registry.active.contains(&id) && issuer.revocation_registry.elements.contains(&id);
+            match catch_unwind(AssertUnwindSafe(|| b.to_unblinded(&blind_claims, blinder))) {
+                Ok(Ok(cb)) => {
+                    let msgs: Vec<Scalar> = cb.credential.claims.iter().map(|c| c.to_scalar()).collect();
+                    let sig_ok = cb.credential.signature.verify(&ipub.verifying_key, &msgs).is_ok();
+                    let idx = cb.credential.revocation_index;
+                    let handle_ok = idx < msgs.len() && cb.credential.revocation_handle.verify(Element(msgs[idx]), AccPk::from(&issuer.revocation_key), issuer.revocation_registry.value);
+                    let mut all = claims.clone();
+                    all.push(hidden);
+                    json!({"r":"ok","impl":"ok","rx":rx_table,"sig_ok":sig_ok,"handle_ok":handle_ok,"recorded":recorded,"claims_same": cb.credential.claims == all,
+                           "value_same": before.2 == after.2, "rev_index_ok": matches!(all.get(idx), Some(ClaimData::Revocation(r)) if r.value == id)})
+                }
+                Ok(Err(_)) => json!({"r":"ok","impl":"ok","rx":rx_table,"unblind":"err"}),
+                Err(_) => json!({"r":"ok","impl":"ok","rx":rx_table,"unblind":"panic"}),
+            }
+        }
+    }
+}
+
 fn schema_new_case(v: &Value) -> Value {
     let labels: Vec<String> = v["labels"].as_array().unwrap().iter().map(|x| x.as_str().unwrap().to_string()).collect();
     let blind: Vec<String> = v["blind"].as_array().unwrap().iter().map(|x| x.as_str().unwrap().to_string()).collect();
@@ -127,6 +219,7 @@ fn schema_new_case(v: &Value) -> Value {
 pub fn run(op: &str, v: &Value) -> Value {
     match op {
         "f_schema_new" => schema_new_case(v),
+        _ if v["blind"] == true => if v["suite"].as_str() == Some("ps") { blind_issue_case::<PsScheme>(v) } else { blind_issue_case::<BbsScheme>(v) },
         _ => if v["suite"].as_str() == Some("ps") { issue_case::<PsScheme>(v) } else { issue_case::<BbsScheme>(v) },
     }
 }
